@@ -384,15 +384,8 @@ func (e *Ev) callStatic(fn *types.Func, recv *Term, args []Term, n *ast.CallExpr
 			results = append(results, Term{S: nm, Sort: rs, T: rt, Signed: isSigned(rt)})
 		}
 	}
-	// modifies: havoc
-	post := e.st
-	for _, c := range b.clauses("modifies") {
-		for _, h := range splitTopSpaces(c.Text) {
-			e.havocItem(h, mk(pre, pre))
-		}
-	}
-	// allocation: heaps in which the callee creates objects change only at objects allocated by
-	// this call (predicate alloc$k, which implies fresh$ and excludes the caller's own allocations)
+	// objects allocated by this call (predicate alloc$k, which implies fresh$) are not referenced
+	// from anywhere in the PRE-call heaps and differ from the caller's own allocations
 	allocPred := ""
 	if as := b.clauses("allocates"); len(as) > 0 {
 		allocPred = e.g().freshName("alloc$")
@@ -403,6 +396,17 @@ func (e *Ev) callStatic(fn *types.Func, recv *Term, args []Term, n *ast.CallExpr
 			e.define(smtNot(app(allocPred, o)))
 		}
 		e.notInHeaps(func(c string) string { return smtNot(app(allocPred, c)) })
+	}
+	// modifies: havoc
+	post := e.st
+	for _, c := range b.clauses("modifies") {
+		for _, h := range splitTopSpaces(c.Text) {
+			e.havocItem(h, mk(pre, pre))
+		}
+	}
+	// allocation: heaps in which the callee creates objects change only at objects allocated by
+	// this call (predicate alloc$k, which implies fresh$ and excludes the caller's own allocations)
+	if as := b.clauses("allocates"); len(as) > 0 {
 		for _, c := range as {
 			for _, h := range strings.Fields(c.Text) {
 				name, srt := e.allocHeap(h, calleeBV)
